@@ -188,6 +188,7 @@ SENTENCES = [
     "y ~ x + ( a | s ) + ( b | s ) + ( c | s ) + ( d | s ) + ( e | s ) + ( f | s ) + ( g | s ) + ( h | s ) + z",
     "y ~ a + b + c + d + e + f + g + h + i + j + k + ( x | s ) + ( 1 | t )", "y ~ a : b + c : d + e : f + g + h + i + j + k + l + m + n + ( x | s )",
     "y ~ f ( x , )", "y ~ log ( x , base = 2 , )", "y ~ g ( x , h ( z , ) ) + a", "y ~ f ( x , , )", "y ~ f ( , x )",
+    "a [ b ] ( )", "y ~ a [ 's' ] ( x )", "y ~ f ( a [ b ] ( x ) ) + c", "y [ l ] ( z ) ~ x",  # a subset cannot be called
     "y ~ x [ ( a ) ]", "x [ ( 'a' ) ] ~ b", "y [ `a` ] ~ b", "y [ { a } ] ~ b", "y [ f ( a ) ] ~ b", "y ~ a + x [ ( ( b ) ) ]", "y [ - a ] ~ b", "y [ 1 ] ~ b",
     "y [ '' ] ~ a", 'y [ "" ] ~ a + f ( b , \'\' )', "y [ ' ' ] ~ a", "y [ 's' ] ~ f ( a , k = '' ) + f ( a , k = 's' )",
 ]
